@@ -79,7 +79,11 @@ def case(chk, i):
     cb_files = None
     if via in ("cli", "cli-rel"):
         # all but the last header are passed the way the CLI does it: -include
-        cmd = [build.BINDGEN, roots[-1], "--depfile", depfile, "-o", out_rs, "--"] + cargs
+        # what is generated has no bearing on what was read: restricted --generate lists, allowlists and blocklists leave the depfile alone
+        gen_flags = rng.choice([[], [], ["--generate", "types"], ["--generate", "types,functions"], ["--generate", "functions"], ["--ignore-functions"],
+                                ["--allowlist-type", "s1"], ["--blocklist-type", "s.*", "--blocklist-item", "e.*"], ["--generate", "vars"]])
+        obs["restricted_generation"] = int(bool(gen_flags))
+        cmd = [build.BINDGEN, roots[-1], "--depfile", depfile, "-o", out_rs] + gen_flags + ["--"] + cargs
         for r in roots[:-1]:
             cmd += ["-include", r]
         rc, so, se, _ = sh(cmd, timeout=120, cpu=100, cwd=base)
